@@ -68,7 +68,11 @@ func (proxy *multicastProxy) AddMember(m io.Closer) {
 		proxy.closed = false
 
 		proxy.logger.Info("multicast proxy started.")
+		return
 	}
+
+	// 代理已启动：后续成员也要登记，否则第一个成员离开时代理就会停止
+	proxy.members = append(proxy.members, m)
 }
 
 func (proxy *multicastProxy) ReleaseMember(m io.Closer) {
